@@ -21,7 +21,7 @@ func init() {
 
 func init() {
 	register("C11",
-		"Decides the structural preconditions of GC visibility: every runtime allocation/clear/copy/map call gets the real run-time type (GC-TYPED); no pointer is parked in a uintptr across a call or stored as an integer (GC-UINTPTR); the shadow structs and the stack map iterator match the layouts of the toolchain go.mod declares, and all ten linkname pulls resolve there with matching shapes (GC-SHADOW, GC-ITER, GC-LINKSIG); ReadFile's target is the caller's typed memory or a typed allocation (GC-TARGET); every codec's New returns a typed allocation layout-compatible with what its Read expects, or the sub-codec's New when Read forwards the pointer (PC-NEW); element storage is allocated with the element's own type (BT-ARR, BT-MAP). "+
+		"Decides the structural preconditions of GC visibility: every runtime allocation/clear/copy/map call gets the real run-time type (GC-TYPED); no pointer is parked in a uintptr across a call or stored as an integer (GC-UINTPTR); the shadow structs and the stack map iterator match the layouts of the toolchain go.mod declares, and all ten linkname pulls resolve there with matching shapes (GC-SHADOW, GC-ITER, GC-LINKSIG); ReadFile's target is the caller's typed memory or a typed allocation (GC-TARGET); every codec's New returns a typed allocation layout-compatible with what its Read expects, or the sub-codec's New when Read forwards the pointer (PC-NEW); element storage is allocated with the element's own type (BT-ARR, BT-MAP).  Arena slots are cleared with their own type when handed out and Close only resets lengths (AL-CLR, AL-CLOSE, AL-BUMP): a slot never carries pointers of an earlier use into a new value. "+
 			"Not decided: equality of results under concurrent collection as a schedule property.",
 		func(c *Ctx) {
 			ruleGCTyped(c)
@@ -33,6 +33,7 @@ func init() {
 			ruleGCTarget(c)
 			rulePCNew(c)
 			ruleBTArrMap(c)
+			ruleALBump(c)
 		})
 }
 
@@ -49,7 +50,7 @@ func isTimePkgFunc(P *Program) func(fn *ssa.Function) bool {
 
 func init() {
 	register("C19",
-		"Decides necessary conditions of C19 in the time codecs: the builder's logical-type table gives the specification's nanoseconds per unit (TS-MULT); the reader computes time.Unix(0, l*mult) (TS-READ); on every path of the writer the unit the time is converted to equals every multiplier the builder can have assigned on that path (TS-UNIT) and the multiplier is consulted by both sides (E-FU); every &x handed to the embedded int codecs is a variable of exactly the codec's width (PC-ARG), so a negative day count is sign-correct. "+
+		"Decides necessary conditions of C19 in the time codecs: the builder's logical-type table gives the specification's nanoseconds per unit (TS-MULT); the reader computes time.Unix(0, l*mult) (TS-READ); on every path of the writer the unit the time is converted to equals every multiplier the builder can have assigned on that path (TS-UNIT) and the multiplier is consulted by both sides (E-FU); every &x handed to the embedded int codecs is a variable of exactly the codec's width (PC-ARG), so a negative day count is sign-correct.  The time codecs omit only the zero time, never an instant whose stored integer happens to be 0 (OM-ZERO). "+
 			"Not decided: the day/instant arithmetic itself (floor versus truncation before 1970, overflow of l*mult).",
 		func(c *Ctx) {
 			ruleTSMult(c)
@@ -58,6 +59,7 @@ func init() {
 			ruleTSNoDur(c)
 			ruleTSUTC(c)
 			c.Note("not decided: DateCodec.Write divides Unix seconds by 86400 truncating toward zero (wrong before 1970 for non-midnight times); overflow of l*mult")
+			ruleOMZero(c)
 		})
 
 	register("C20",
